@@ -196,6 +196,31 @@ int cmdRandom(int argc, char** argv) {
 		e.add("e", "sphere").raw("P", jp.done()).raw("center", jv(bs.center)).add("radius", sc(bs.radius));
 		out.line(e.done());
 	}
+	// small clouds far from the origin (cell / world coordinates): logged relative to the offset, with the slack the float
+	// resolution at that distance needs
+	{
+		const double offs[][3] = {{350, -120, 64}, {4096, 8192, 512}, {61440, 36864, 2900}, {-147456, 110592, -4200}};
+		for (size_t k = 0; k < count / 2 + 8; k++) {
+			const double* O = offs[k % 4];
+			size_t n = 3 + rng() % 10;
+			std::vector<Vector3> pts;
+			for (size_t i = 0; i < n; i++)
+				pts.emplace_back(float(O[0] + double(int(rng() % 13) - 6)), float(O[1] + double(int(rng() % 13) - 6)), float(O[2] + double(int(rng() % 7) - 3)));
+			BoundingSphere bs(pts);
+			auto rel = [&](const Vector3& p) {
+				JArr a;
+				a.add((long long) llround((double(p.x) - O[0]) * 1000.0)).add((long long) llround((double(p.y) - O[1]) * 1000.0)).add((long long) llround((double(p.z) - O[2]) * 1000.0));
+				return a.done();
+			};
+			JArr jp;
+			for (auto& p : pts) jp.raw(rel(p));
+			double far = std::max(std::fabs(O[0]), std::max(std::fabs(O[1]), std::fabs(O[2])));
+			long long slack = 3 + (long long) std::ceil(far * 1.2e-7 * 100.0 * 6.0);
+			JObj e;
+			e.add("e", "sphere").add("far", true).add("slack", slack).raw("P", jp.done()).raw("center", rel(bs.center)).add("radius", sc(bs.radius));
+			out.line(e.done());
+		}
+	}
 	// shape bounds along an edit history: create, UpdateBounds, move the vertices (same count), UpdateBounds again
 	const char* vers[] = {"OB", "FO3", "SK", "SSE", "FO4", "FO76"};
 	for (size_t k = 0; k < count / 4 + 6; k++) {
